@@ -4,6 +4,8 @@ import AslProofs.RcMutex
 import Gen.ShapesGen
 import AslProofs.RcCompile3
 import AslProofs.RcNest
+import AslModel.RcOrders
+import AslProofs.RcOrders
 /-!
 # C12 — Shared handles and atomic counters are correct under every thread interleaving
 
@@ -322,5 +324,58 @@ example : wfDescr [[1, 2], [2], []] [0, 1] = true ∧ invB (build [[1, 2], [2], 
     resolve (build [[1, 2], [2], []] [0, 1]) ⟨0, [0, 0]⟩ = some (Loc.inObj 1 0) := by decide
 
 end Nested
+
+/-! ## the statement orders of `Shared::operator=` and `SmartObject::operator=` (`AslModel/RcOrders.lean`) -/
+
+section Orders
+open AslModel.RcNest AslProofs.RcOrders
+
+/-- **G obligation.**  The copy-assignment operator of every handle class, as its statements stand in the current source,
+    performs (increment the source's count, store into the destination, release the old object) in one of the three
+    acquire-first orders the theorems below cover. -/
+theorem assignment_orders_known : ∀ p ∈ Gen.Shapes.assignOrders, p.2 ≠ Gen.Shapes.Ord.unknown := by decide
+
+/-- **shared_order_same_heap.**  `Shared::operator=` (store, increment through the stored pointer, release) yields exactly the
+    heap of the Array order — every heap, every two places, no hypothesis. -/
+theorem shared_order_same_heap (h : Heap) (dst src : Loc) : assignOrd Order.shared h dst src = assign true h dst src := by
+  rw [assignOrd_shared, assignOrd_array]
+
+/-- …so it is safe wherever the Array order is. -/
+theorem shared_assign_safe (h : Heap) (dst src : Loc) (hI : Inv h []) (hb : h.bad = false)
+    (hd : locLive h dst = true) (hs : locLive h src = true) :
+    (assignOrd Order.shared h dst src).bad = false ∧ Inv (assignOrd Order.shared h dst src) [] := by
+  rw [shared_order_same_heap]; exact nested_assign_safe h dst src hI hb hd hs
+
+/-- **smart_order_same_heap.**  `SmartObject::operator=` (increment, release, store) stores after the destructor cascade.  In any
+    heap satisfying the invariant it yields exactly the heap of the Array order provided the object that holds the destination
+    place is still allocated after the assignment (a program variable always is). -/
+theorem smart_order_same_heap (h : Heap) (dst src : Loc) (hI : Inv h []) (hb : h.bad = false)
+    (hd : locLive h dst = true) (hs : locLive h src = true) (hc : containerAlive (assign true h dst src) dst = true) :
+    assignOrd Order.smart h dst src = assign true h dst src := by
+  have hok := (nested_assign_safe h dst src hI hb hd hs).1
+  rw [← assignOrd_array] at hok hc ⊢
+  exact assignOrd_smart h dst src hok hc
+
+/-- assignment to a program variable (`p = p->next`, `s = s.member`) in SmartObject's order is safe in every heap -/
+theorem smart_assign_to_variable_safe (h : Heap) (i : Nat) (src : Loc) (hI : Inv h []) (hb : h.bad = false)
+    (hd : locLive h (Loc.root i) = true) (hs : locLive h src = true) :
+    (assignOrd Order.smart h (Loc.root i) src).bad = false ∧ Inv (assignOrd Order.smart h (Loc.root i) src) [] := by
+  rw [smart_order_same_heap h (Loc.root i) src hI hb hd hs rfl]; exact nested_assign_safe h _ src hI hb hd hs
+
+/-- **smart_order_needs_live_container.**  The hypothesis is needed: when the only handles to the object holding the destination
+    are inside the structure the assignment releases (here a two-object cycle no program variable reaches), the Array order is
+    fine and SmartObject's order touches released storage. -/
+theorem smart_order_needs_live_container :
+    ∃ (h : Heap) (dst src : Loc), invB h [] 4 = true ∧ locLive h dst = true ∧ locLive h src = true ∧
+      (assign true h dst src).bad = false ∧ (assignOrd Order.smart h dst src).bad = true :=
+  ⟨{ objs := [⟨1, true, [1]⟩, ⟨1, true, [0]⟩, ⟨1, true, []⟩], roots := [2], bad := false }, Loc.inObj 0 0, Loc.root 0, by decide⟩
+
+/-- non-vacuity (test, labelled as such): `p = p->next` on a three-node list held by one variable, in all three orders -/
+example : let h : Heap := { objs := [⟨1, true, [1]⟩, ⟨1, true, [2]⟩, ⟨1, true, []⟩], roots := [0], bad := false }
+    assignOrd Order.smart h (Loc.root 0) (Loc.inObj 0 0) = assign true h (Loc.root 0) (Loc.inObj 0 0) ∧
+    assignOrd Order.shared h (Loc.root 0) (Loc.inObj 0 0) = assign true h (Loc.root 0) (Loc.inObj 0 0) ∧
+    (assign true h (Loc.root 0) (Loc.inObj 0 0)).roots = [1] ∧ aliveAt (assign true h (Loc.root 0) (Loc.inObj 0 0)) 0 = false := by decide
+
+end Orders
 
 end C12
